@@ -153,8 +153,26 @@ def decode_lemma(word):
 
 # ------------------------------------------------------------------------------------------------ C07 words
 
+def pack_scenario(word, nbits, order):
+    """native scenario: the word packs a fixed value while the *other* default byte order is active"""
+    import struct
+    nb = nbits // 8
+    if word.startswith("f"):
+        raw = struct.pack(">f" if nbits == 32 else ">d", 1.5)
+        lit = "1.5"
+    else:
+        val = int.from_bytes(bytes(range(1, nb + 1)), "big")
+        raw = val.to_bytes(nb, "big")
+        lit = str(val)
+    bytes_out = raw if order != "Little" else raw[::-1]
+    default = {"Little": "big", "Big": "little", None: "big"}[order]
+    exp = "|" + " ".join("%02X" % b for b in bytes_out) + "|"
+    return lambda m: {"lines": ["eval %s %s %s" % (default, lit, word), "stack"], "expect": [("no_panic",), ("last_result_in", ["ok"]), ("cells_are", [("bitstr", exp)])]}
+
+
 def pack_lemma(word, nbits, order):
     def body(L):
+        cex = pack_scenario(word, nbits, order)
         v = L.cell("v")
         pre = c06.CursorPre(L, stack=[v])
         tgt = word_map(L.ex, "bitstr_ext::load")[word][0]
@@ -172,17 +190,17 @@ def pack_lemma(word, nbits, order):
             top = ds1.items[-1] if ds1.items else None
             okv = isinstance(top, Enum) and top.variant == "Bitstr" and len(ds1.items) == 1
             if not okv:
-                L.require(o, False, word + ": pushes one bit-string")
+                L.require(o, False, word + ": pushes one bit-string", cex=cex)
                 continue
             bs = L.payload(top, 0, "bitstr::Bitstr")
             s, e = c06.rng_of(L, bs)
             data = L.field(bs, "Bitstr", "data")
             nm = data.box.name
-            L.require(o, e - s == z3.BitVecVal(nbits, 64), "%s: the packed field is exactly %d bits wide" % (word, nbits))
+            L.require(o, e - s == z3.BitVecVal(nbits, 64), "%s: the packed field is exactly %d bits wide" % (word, nbits), cex=cex)
             want = "from_int(v.Int.0,%d," % nbits if not word.startswith("f") else "from_f%d(" % nbits
-            L.require(o, z3.BoolVal(nm.startswith(want)), "%s: the field is from_*(popped value, %d, byte order) - got %s" % (word, nbits, nm[:60]))
+            L.require(o, z3.BoolVal(nm.startswith(want)), "%s: the field is from_*(popped value, %d, byte order) - got %s" % (word, nbits, nm[:60]), cex=cex)
             if order is not None:
-                L.require(o, z3.BoolVal(nm.rstrip(").data").endswith(order)), "%s: packed with byte order %s - got %s" % (word, order, nm[-40:]))
+                L.require(o, z3.BoolVal(nm.rstrip(").data").endswith(order)), "%s: packed with byte order %s - got %s" % (word, order, nm[-40:]), cex=cex)
     return body
 
 
